@@ -577,3 +577,23 @@ func deepDefsRecords(v ssa.Value, scope []*ssa.Function) []ssa.Value {
 	rec(v, 0)
 	return out
 }
+
+// sameValue: x is target, or x reads a field of a record private to owner (`var act struct{exe; err}`) that holds
+// target and nothing else whenever the read is executed.
+func sameValue(x, target ssa.Value, owner *ssa.Function) bool {
+	if x == nil || target == nil {
+		return false
+	}
+	if x == target {
+		return true
+	}
+	ld, ok := x.(*ssa.UnOp)
+	if !ok || ld.Op != token.MUL || owner == nil || ld.Parent() != owner {
+		return false
+	}
+	if _, isFA := ld.X.(*ssa.FieldAddr); !isFA {
+		return false
+	}
+	ds := resolveCells(x, owner, []*ssa.Function{owner})
+	return len(ds) == 1 && ds[0] == target
+}
